@@ -28,7 +28,7 @@ RULE = (
     "file in that execution; distinct = distinct (world digest, scenario digest, tape digest)."
 )
 TIERS = {
-    "quick": {"runs": 120, "budget_s": 45, "min_runs": 4, "run_timeout_s": 240},
+    "quick": {"runs": 120, "budget_s": 60, "min_runs": 4, "run_timeout_s": 240},
     "thorough": {"runs": 8000, "budget_s": 800, "min_runs": 40, "run_timeout_s": 600},
 }
 COMPONENTS_REAL = [
@@ -68,19 +68,28 @@ def gen_world(rng: Rng) -> dict:
     root_core = world["cfg"]["root_core"]
     files = sql_files(world)
     victim = r2.choice(files)
+    in_nested = [f_ for f_ in files if world["meta"][f_]["dir"] in world["cfg"]["nested"]]
+    if in_nested and r2.chance(0.5):
+        # the limit is a per-file setting: prefer a victim whose directory has its own config
+        victim = r2.choice(in_nested)
     vdata = unb64(world["files"][victim]["b64"])
     delta = r2.choice([-1, 0, 1])
-    which = r2.choice(["byte", "byte", "char", "none"])
+    which = r2.choice(["byte", "byte", "char", "char", "none"])
     vdir = world["meta"][victim]["dir"]
     if which == "byte":
         lim = max(1, len(vdata) + delta)
-        if vdir and vdir in world["cfg"]["nested"] and "large_file_skip_byte_limit" in world["cfg"]["nested"][vdir]:
+        if vdir and vdir in world["cfg"]["nested"] and ("large_file_skip_byte_limit" in world["cfg"]["nested"][vdir] or r2.chance(0.5)):
             world["cfg"]["nested"][vdir]["large_file_skip_byte_limit"] = lim
             world["files"]["proj/%s/.sqlfluff" % vdir]["b64"] = b64(ini({"sqlfluff": world["cfg"]["nested"][vdir]}))
         else:
             root_core["large_file_skip_byte_limit"] = lim
     elif which == "char":
-        root_core["large_file_skip_char_limit"] = max(1, len(vdata.decode("utf-8")) + delta)
+        lim = max(1, len(vdata.decode("utf-8")) + delta)
+        if vdir and vdir in world["cfg"]["nested"] and ("large_file_skip_char_limit" in world["cfg"]["nested"][vdir] or r2.chance(0.5)):
+            world["cfg"]["nested"][vdir]["large_file_skip_char_limit"] = lim
+            world["files"]["proj/%s/.sqlfluff" % vdir]["b64"] = b64(ini({"sqlfluff": world["cfg"]["nested"][vdir]}))
+        else:
+            root_core["large_file_skip_char_limit"] = lim
     world["files"]["proj/.sqlfluff"]["b64"] = b64(ini(world["cfg"]["sections"]))
     world["pinned"] = {"victim": victim, "which": which, "delta": delta}
     return world
